@@ -19,12 +19,16 @@ ASSUME = ['payload values are abstract (naturals); the channel never inspects th
 
 def run(ctx):
     ctx.trusted_base, ctx.assumptions = TB, ASSUME
-    if not ctx.harness(['ls_channel', 'sh_probe']):
+    if not ctx.harness(['ls_channel', 'p_nested', 'sh_probe']):
         return
     ctx.translate(COMPONENTS)
     ctx.prove('props/C06.v')
     L.lockstep(ctx, [L.mon_c06])
+    L.nested_sweep(ctx, ('outcome', 'panic'))
     L.histories(ctx, 500 if ctx.tier == 'quick' else 5000)
+    ctx.coverage['rule_nested'] = ('instruction-level sweep (trap flag): send/recv interrupted after every instruction by a handler running '
+                                   'send/recv to completion, fill 0-5; outcomes (returns, drained values, drop counts, panic, hang) against the '
+                                   'outcomes of the SC model over all step boundaries')
     ctx.coverage['rule'] = ('17 scenario shapes with 2-3 activities of 1-3 operations (senders/receivers, prefilled 0-5, a send running inside the '
                             'window between the two queue operations of another send/recv); every split point of one activity against the other, '
                             'with and without injected spurious CAS failures, + random 2-preemption and random run-length schedules; final drain; '
